@@ -403,3 +403,12 @@ mod tests {
         assert_eq!(buf.as_slice(), [65, 0, 66, 0,]);
     }
 }
+
+// Verification hook. Inert unless built by the Kani compiler (`cargo kani`, `cargo kani playback`):
+// the harness text lives outside this repository, in `$RS_MATTER_VERIF_DIR`.
+#[cfg(kani)]
+mod verif_kani {
+    #[allow(unused_imports)]
+    use super::*;
+    include!(concat!(env!("RS_MATTER_VERIF_DIR"), "/utils__storage__writebuf.rs"));
+}
